@@ -9,7 +9,7 @@ Definition tls_eqb (a b : tlscfg) : bool :=
 Definition transport_eqb (a b : transport) : bool :=
   (t_rht a =? t_rht b) && (t_idle a =? t_idle b) && (t_maxidle a =? t_maxidle b)
   && (t_dial a =? t_dial b) && (t_keepalive a =? t_keepalive b)
-  && opt_eqb tls_eqb (t_tls a) (t_tls b).
+  && opt_eqb tls_eqb (t_tls a) (t_tls b) && (t_other a =? t_other b).
 
 (* spec side, computed without [run]: for the NewTransport at position k the limits are those
    of the last SetConfig among the first k operations *)
